@@ -387,7 +387,12 @@ def stream_files(ctx, quick):
     for _ in range(1500 if quick else 30000):
         strings.append("".join(rng.choice(pool) for _ in range(rng.randint(0, 14))))
     for s in strings:
-        re_ = ds._escape_key(s)
+        try:
+            re_ = ds._escape_key(s)
+        except Exception as e:
+            ctx.viol("a key over admissible name characters is refused by the file-name escaping", {"clause": "escape-accepts"},
+                     dict(kind="escape", string=s, error=repr(e)[:200]))
+            continue
 
         def h(o, s=s, re_=re_):
             if o != hexs(re_):
@@ -414,7 +419,10 @@ def stream_files(ctx, quick):
             cands.append("".join(rng.choice("ab1.:#@-") for _ in range(rng.randint(1, 8))) + rng.choice(["", "", ".link", ".memento.json"]))
         for key in cands:
             is_dir = rng.random() < 0.5
-            e = sfs._FilesystemDataSource._escape_key(None, key) + ("" if is_dir else ".link")
+            try:
+                e = sfs._FilesystemDataSource._escape_key(None, key) + ("" if is_dir else ".link")
+            except Exception:
+                continue            # (refused keys are reported by the escaping stream above)
             if key in (".", "..") or e in seen or e in (".versions", ".tmp") or "/" in key:
                 continue
             seen.add(e)
@@ -879,7 +887,7 @@ def evo_case(ctx, sc):
     gp = real_parse(gqn)
     g_exists = matches(desc1, gp[1], gp[2], gp[3])
     chk.count("callee-reference:" + ("still-exists" if g_exists else "vanished"))
-    for api in ("call", "memento", "list_mementos"):
+    for api in ("call", "memento", "list_mementos", "trace_graph"):
         if not obs1[api][0]:
             fail("%s raised after the code base evolved" % api, api, error=obs1[api][1], stored_reference=gqn)
     for cname, (ok, v) in obs1["list_functions"].items():
@@ -1050,7 +1058,7 @@ def hof_case(ctx, sc):
     ok1, obs1 = phase(e1)
     if not ok1:
         return [dict(what="observing the caller under the evolved code base raised", cls=dict(base, api="observe"), error=obs1)]
-    for api in ("call", "memento", "list_mementos"):
+    for api in ("call", "memento", "list_mementos", "trace_graph"):
         if not obs1[api][0]:
             fails.append(dict(what="%s raised after the function passed as an argument evolved" % api, cls=dict(base, api=api), error=obs1[api][1]))
     for cname, (ok, v) in obs1["list_functions"].items():
